@@ -375,7 +375,9 @@ class Report:
         ev["coverage"].update(self.extra)
         if self.known:
             ev["coverage"]["known_findings_reported"] = self.known
-        os.makedirs(EVID, exist_ok=True)
-        with open(os.path.join(EVID, self.pid + ".json"), "w") as f:
+        # checks outside the property list (X..) keep their evidence apart from the per-property files
+        edir = os.path.join(EVID, "extra") if self.pid.startswith("X") else EVID
+        os.makedirs(edir, exist_ok=True)
+        with open(os.path.join(edir, self.pid + ".json"), "w") as f:
             json.dump(ev, f, indent=1, default=str)
         return 1 if self.violations else 0
